@@ -150,6 +150,8 @@ def close(a, b):
     if isinstance(a, (int, float)) and isinstance(b, (int, float)):
         if a == b:
             return True
+        if any(isinstance(x, float) and (x != x or math.isinf(x)) for x in (a, b)):
+            return False   # an infinity (or NaN) is only equal to itself: no tolerance reaches it
         return abs(a - b) <= 1e-12 + 1e-9 * max(abs(a), abs(b))
     return a == b
 
